@@ -172,3 +172,39 @@ Theorem C04_pool_disjoint_from_live_partial : forall (C : Type) (o0 : obj C) (c0
   o_buf C (objs C st p) = Some b -> c_free C (heap C st b) = false.
 Proof. exact pool_disjoint_from_live. Qed.
 Print Assumptions C04_pool_disjoint_from_live_partial.
+
+(* non-vacuity: a trace in which a NACK goroutine holds packet 0 across its eviction, resends it (bytes 7), releases
+   it, and the freed buffer 0 is then recycled for packet 2 (bytes 11) *)
+Example C04_lts_example : exists st,
+  run Z (init Z (mkObj Z 0 None 0 false false 0) (mkCell Z 0 true))
+      [LNew Z 2 11; LRelease Z 0; LEmit Z 0 (Some 7); LNew Z 1 9; LEvict Z 0; LGet Z 0 true; LInsert Z 0; LNew Z 0 7] st
+  /\ o_buf Z (objs Z st 2) = Some 0%nat /\ c_data Z (heap Z st 0) = 11.
+Proof.
+  eexists. split.
+  - eapply RunStep. eapply RunStep. eapply RunStep. eapply RunStep. eapply RunStep. eapply RunStep. eapply RunStep. eapply RunStep.
+    apply RunNil.
+    + apply SNewFresh.
+    + apply SInsert; cbv; auto.
+    + apply SGetOk; cbv; auto; discriminate.
+    + apply SEvict; cbv; auto.
+    + apply SNewFresh.
+    + lazymatch goal with |- step _ ?s _ _ => pose proof (SEmit Z s 0%nat) as HE end.
+      cbv in HE. apply HE; [repeat constructor | discriminate].
+    + apply SRelease; cbv; auto; discriminate.
+    + lazymatch goal with |- step _ ?s _ _ => pose proof (SNewReuse Z s 11 0%nat) as HN end.
+      cbv in HN. apply HN; [repeat constructor | reflexivity].
+  - cbv. auto.
+Qed.
+Print Assumptions C04_lts_example.
+
+(* ---- oracle soundness and model bookkeeping ---- *)
+(* the boolean retransmission-form oracle applied to the implementation's outputs is the Prop-level spec *)
+Theorem C04_oracle_form_sound : forall rtx rs rpt h pay h' pay',
+  is_resend_ofb rtx rs rpt h pay h' pay' = true <-> is_resend_of rtx rs rpt h pay h' pay'.
+Proof. exact is_resend_ofb_iff. Qed.
+Print Assumptions C04_oracle_form_sound.
+
+(* the clearing loop of Add run literally (a fold over highestAdded+1 .. seq-1) is the closed form the model executes *)
+Theorem C04_add_loop_is_closed_form : forall b p, In (rb_size b) valid_sizes -> rb_add_loop b p = rb_add b p.
+Proof. exact rb_add_loop_eq. Qed.
+Print Assumptions C04_add_loop_is_closed_form.
